@@ -59,6 +59,62 @@ func IsSupportedDNSKEYAlgorithm(alg uint8) bool {
 	return false
 }
 
+// DSAuthenticatedKeysWithWork returns the DNSKEYs of keyMap that a supported DS
+// in parentDSSet authenticates, grouped by key tag like keyMap. RFC 4035 §5.2:
+// the apex DNSKEY RRset is authenticated by a signature of a key the DS RRset
+// refers to. A key that merely appears in that RRset proves nothing about it —
+// anyone on the path can add one — so the caller must verify the RRset with
+// these keys only. Digest work is accounted like VerifyDSWithWork.
+func DSAuthenticatedKeysWithWork(
+	keyMap map[uint16][]*dns.DNSKEY,
+	parentDSSet []dns.RR,
+	work DSDigestWork,
+) (map[uint16][]*dns.DNSKEY, error) {
+	authenticated := make(map[uint16][]*dns.DNSKEY)
+	for _, parentDS := range uniqueSortedDSRecords(parentDSSet) {
+		if !IsSupportedDS(parentDS) {
+			continue
+		}
+		wantDigest, decodeErr := hex.DecodeString(parentDS.Digest)
+		if decodeErr != nil || len(wantDigest) == 0 {
+			continue
+		}
+		candidates := make([]*dns.DNSKEY, 0, len(keyMap[parentDS.KeyTag]))
+		for _, ksk := range keyMap[parentDS.KeyTag] {
+			if usableDSCandidate(parentDS, ksk) {
+				candidates = append(candidates, ksk)
+			}
+		}
+		var candidateUsed uint32
+		for _, ksk := range uniqueSortedDNSKEYs(candidates) {
+			if work != nil {
+				if err := work.CheckDNSKEYCandidate(candidateUsed); err != nil {
+					return nil, wrapWorkError(err)
+				}
+			}
+			ok, err := runDSDigestMatch(work, ksk, parentDS.DigestType, wantDigest)
+			if err != nil {
+				return nil, err
+			}
+			candidateUsed++
+			if !ok {
+				continue
+			}
+			known := false
+			for _, have := range authenticated[parentDS.KeyTag] {
+				if have == ksk {
+					known = true
+					break
+				}
+			}
+			if !known {
+				authenticated[parentDS.KeyTag] = append(authenticated[parentDS.KeyTag], ksk)
+			}
+		}
+	}
+	return authenticated, nil
+}
+
 // IsSupportedDS reports whether a DS record is usable for validation:
 // both its digest type and the DNSKEY algorithm it advertises must be
 // something this validator can verify.
@@ -346,7 +402,7 @@ func runDSDigestMatch(
 // error, expired) only causes the RRset to fail if no sibling signature
 // succeeds.
 func VerifyRRSIG(signer string, keys map[uint16][]*dns.DNSKEY, msg *dns.Msg) (bool, error) {
-	return verifyRRSIGWithWork(signer, keys, msg, nil)
+	return verifyRRSIGWithWork(signer, keys, nil, msg, nil)
 }
 
 // VerifyRRSIGWithWork is VerifyRRSIG with request-tree signature work
@@ -358,12 +414,30 @@ func VerifyRRSIGWithWork(
 	msg *dns.Msg,
 	work SignatureWork,
 ) (bool, error) {
-	return verifyRRSIGWithWork(signer, keys, msg, work)
+	return verifyRRSIGWithWork(signer, keys, nil, msg, work)
+}
+
+// VerifyApexDNSKEYWithWork is VerifyRRSIGWithWork for a response that carries
+// the signer's own apex DNSKEY RRset: that RRset must be signed by one of
+// apexKeys (the keys its parent's DS RRset authenticates, see
+// DSAuthenticatedKeysWithWork), every other RRset by any key in keys.
+func VerifyApexDNSKEYWithWork(
+	signer string,
+	keys map[uint16][]*dns.DNSKEY,
+	apexKeys map[uint16][]*dns.DNSKEY,
+	msg *dns.Msg,
+	work SignatureWork,
+) (bool, error) {
+	if apexKeys == nil {
+		apexKeys = map[uint16][]*dns.DNSKEY{}
+	}
+	return verifyRRSIGWithWork(signer, keys, apexKeys, msg, work)
 }
 
 func verifyRRSIGWithWork(
 	signer string,
 	keys map[uint16][]*dns.DNSKEY,
+	apexKeys map[uint16][]*dns.DNSKEY,
 	msg *dns.Msg,
 	work SignatureWork,
 ) (bool, error) {
@@ -514,11 +588,16 @@ func verifyRRSIGWithWork(
 		}
 		sigList = uniqueSortedRRSIGs(sigList)
 
+		setKeys := keys
+		if apexKeys != nil && key.rtype == dns.TypeDNSKEY && key.name == signerZone {
+			setKeys = apexKeys
+		}
+
 		var lastErr error
 		verified := false
 		var rrsetUsed uint32
 		for _, sig := range sigList {
-			if err := verifyOneSigWithWork(keys, set, sig, work, &rrsetUsed); err != nil {
+			if err := verifyOneSigWithWork(setKeys, set, sig, work, &rrsetUsed); err != nil {
 				if IsWorkError(err) {
 					return false, err
 				}
